@@ -89,7 +89,7 @@ def _req():
     out += [("potential_extrapolate", "rf", v) for v in ("", "linear", "constant", "quadratic", "exponential", "sasha")]
     out += [(o, "clean", b) for o in ("potential_extrapolate", "table_average", "table_dummy") for b in (True, False)]
     out += [(o, "type", v) for o in ("resample_same", "resample_spline") for v in ("", "linear", "akima", "cubic")]
-    out += [("resample_spline", "isline", b) for b in (True, False)] + [("table_combine_die", "ok", b) for b in (True, False)]
+    out += [("resample_spline", "isline", b) for b in (True, False)] + [("resample_spline", "fit", "yes")] + [("table_combine_die", "ok", b) for b in (True, False)]
     out += [(o, "e4", True) for o in ("update_ibi_pot", "dist_boltzmann_invert", "table_combine", "merge_tables", "add_POT",
                                       "table_scale", "potential_shift", "table_smooth", "table_extrapolate", "table_get_value")]
     out += [(o, "twice", True) for o in ("potential_shift", "dist_adjust", "table_change_flag", "table_extrapolate", "merge_tables")]
@@ -290,6 +290,8 @@ class Runner:
             write_tab(os.path.join(d, "in.tab"), c, c["t"])
             ug = unit_grid(c)
             a = ["--type", c["type"]] if c["type"] else []
+            if c.get("fit"):
+                a += ["--fitgrid", "%r:%r:%r" % (ug[0], (ug[-1] - ug[0]) / c["fit"], ug[-1])]
             return [[os.path.join(self.bindir, "csg_resample"), "--in", "in.tab", "--out", out,
                      "--grid", "%r:%r:%r" % (ug[0], real(c["h"]), ug[-1]), "--derivative", "der.tab"] + a], out, "table"
         if op == "resample_same":
@@ -451,7 +453,7 @@ def variant(c):
     if op == "resample_same":
         return c["type"] or "akima"
     if op == "resample_spline":
-        return (c["type"] or "akima") + (":line" if c["isline"] else "")
+        return (c["type"] or "akima") + (":line" if c["isline"] else "") + (":fit" if c.get("fit") else "")
     return ""
 
 
@@ -871,6 +873,8 @@ def run(ctx):
             for k, v in r["c"].items():
                 if isinstance(v, (str, bool)):
                     seen.add((r["c"]["op"], k, v))
+                if k == "fit" and v:
+                    seen.add((r["c"]["op"], k, "yes"))
             if r["exp"].get("kind") == "exit":
                 seen.add((r["c"]["op"], "ok", r["exp"]["ok"]))
         missing = [x for x in REQUIRED_OPTIONS if x not in seen]
